@@ -339,6 +339,18 @@ func runHunt(o Opts) {
 			}
 			return
 		}
+		if c.Kind == "PV" {
+			tried++
+			if f := pvOracle(c); f != "" {
+				cut := strings.Index(f, "]")
+				key := "PV|" + f[:cut+1]
+				if !seen[key] {
+					seen[key] = true
+					all = append(all, huntEntry{Failure: f, Case: c})
+				}
+			}
+			return
+		}
 		if c.Kind == "Jac" || c.Kind == "Hes" {
 			tried++
 			if f := helperOracle(c); f != "" {
@@ -485,6 +497,11 @@ func runHunt(o Opts) {
 	hrng := NewRng(o.Seed*1000003 + 616161)
 	for i := 0; i < o.N; i++ {
 		try(genHelperM(hrng, i))
+	}
+	// round 7: products on views
+	vrng := NewRng(o.Seed*1000003 + 70707)
+	for i := 0; i < o.N; i++ {
+		try(genView(vrng, i))
 	}
 	// round 5: every option row group x InSitu mode x width through every path
 	for _, c := range generateOptions(NewRng(o.Seed*1000003+4242), o.N/3) {
